@@ -63,9 +63,9 @@ def facts(repo, cfg):
     out.append(bytes_lit("serHexChars", c_unescape(m.group(1)) if m else None, "json_hex_chars"))
 
     esc = func_body(jo, "json_escape_str")
-    out.append(nat("serEscBuf", find_int(esc, r"char\s+sbuf\s*\[\s*(\d+)\s*\]"), "json_escape_str: char sbuf[N]"))
-    m = re.search(r'snprintf\s*\(\s*sbuf\s*,\s*sizeof\s*\(\s*sbuf\s*\)\s*,\s*"((?:[^"\\]|\\.)*)"', esc)
-    fmt = c_unescape(m.group(1)) if m else None
+    out.append(nat("serEscBuf", find_int(esc, r"char\s+\w+\s*\[\s*(\d+)\s*\]"), "json_escape_str: char sbuf[N]"))
+    m = re.search(r'snprintf\s*\(\s*(\w+)\s*,\s*sizeof\s*\(\s*\1\s*\)\s*,\s*"((?:[^"\\]|\\.)*)"', esc)
+    fmt = c_unescape(m.group(2)) if m else None
     # the part of the format before the two %c conversions
     pre = None
     if fmt is not None and bytes(fmt).endswith(b"%c%c"):
@@ -87,7 +87,7 @@ def facts(repo, cfg):
                    "json_escape_str: the byte is read into an unsigned char"))
 
     ib = func_body(jo, "json_object_int_to_json_string")
-    out.append(nat("serIntBuf", find_int(ib, r"char\s+sbuf\s*\[\s*(\d+)\s*\]"), "json_object_int_to_json_string: char sbuf[N]"))
+    out.append(nat("serIntBuf", find_int(ib, r"char\s+\w+\s*\[\s*(\d+)\s*\]"), "json_object_int_to_json_string: char sbuf[N]"))
     ni = norm(ib)
     out.append(lit("serIntBySignedness", "Bool",
                    b(bool(re.search(r'cint_type==json_object_int_type_int64\)snprintf\((\w+),sizeof\(\1\),"%"PRId64,', ni)) and
@@ -96,7 +96,7 @@ def facts(repo, cfg):
                    "int: int64 -> PRId64, else PRIu64; strlen(sbuf) bytes appended"))
 
     db = func_body(jo, "json_object_double_to_json_string_format")
-    out.append(nat("serDblBuf", find_int(db, r"char\s+buf\s*\[\s*(\d+)\s*\]"), "json_object_double_to_json_string_format: char buf[N]"))
+    out.append(nat("serDblBuf", find_int(db, r"char\s+\w+\s*\[\s*(\d+)\s*\]"), "json_object_double_to_json_string_format: char buf[N]"))
     m = re.search(r'std_format\s*=\s*"((?:[^"\\]|\\.)*)"', db)
     out.append(bytes_lit("serStdFormat", c_unescape(m.group(1)) if m else None, "double: std_format"))
     nd = norm(db)
